@@ -410,7 +410,9 @@ pub fn gen_hint_overflow_zone(rng: &mut Rng) -> ZoneCfg {
     let mk = |labels: &[&[u8]], apex: &[u8]| -> Vec<u8> { let mut w = Vec::new(); for l in labels { w.push(l.len() as u8); w.extend_from_slice(l); } w.extend_from_slice(apex); w };
     let mut targets: Vec<Vec<u8>> = Vec::new();
     for i in 0..n_plain { let l = format!("m{}", i); targets.push(mk(&[l.as_bytes()], &apex)); }
-    let shared: [&[u8]; 3] = [b"foo", b"bar", b"foo"];
+    // consecutive late targets share their parent label most of the time (a rolled-back owner is then
+    // the natural compression partner of the next one)
+    let shared: [&[u8]; 3] = match rng.below(4) { 0 => [b"foo", b"bar", b"foo"], 1 => [b"foo", b"foo", b"bar"], _ => [b"foo", b"foo", b"foo"] };
     for (i, l) in [b"x", b"y", b"z", b"v"].iter().enumerate().take(rng.range(2, 4)) {
         targets.push(mk(&[&l[..], shared[i % 3]], &apex));
     }
